@@ -73,7 +73,7 @@ func cmdConcColl(o *Out, line string, f []string) {
 	G, M, buf, procs := int(atoi64(f[1])), int(atoi64(f[2])), int(atoi64(f[3])), int(atoi64(f[4]))
 	old := runtime.GOMAXPROCS(procs)
 	defer runtime.GOMAXPROCS(old)
-	inner := &loggingCollector{Collector: ftdc.NewDynamicCollector(7)}
+	inner := &loggingCollector{Collector: ftdc.NewDynamicCollector(64)} // many small chunks make every observer Resolve expensive under the race detector
 	ctx, cancel := context.WithCancel(context.Background())
 	defer cancel()
 	var c ftdc.Collector = ftdc.NewSynchronizedCollector(inner)
@@ -247,5 +247,5 @@ func streamConcColl(o *Out, rng *rand.Rand, thorough bool, _ []string) {
 	}
 	sort.SliceStable(lines, func(i, j int) bool { return false })
 	_ = strings.Join
-	runIsolated(o, lines, 30*time.Second)
+	runIsolated(o, lines, 120*time.Second)
 }
